@@ -22,6 +22,10 @@ ASSUMPTIONS = [
 CFG = gen.cfg_with(probe_w=4, inner_probe=0.45, max_root=5, max_funcs=5, fail_after_nested_p=0.3, catch_p=0.9, call_w=4)
 
 
+def program_strategy(cfg, cache):
+    return gen.mixed_program(cfg, cache)
+
+
 def drive(draw, h, cfg):
     names = list(h.prog_rel['funcs'])
     univ = cfg['universe']
